@@ -15,6 +15,10 @@ BUILT = {
         text="TLC checks exhaustively (bounded depth) that the transcription of quimb's link/unlink/owner bookkeeping keeps all lookup maps equal to a fresh scan; TLC-simulated behaviours are replayed into real TensorNetwork objects (0 model drift) and seeded random walks over ~35 public operations are judged clause by clause by the trace spec.",
         note="trusted: TLC, C02_Defs fresh-scan definitions, the driver's projection of public attributes; assumes a tensor object is held at most once per network and callers keep label sizes consistent",
         technique="TLA+ implementation-shaped state machine model-checked with TLC; replay of TLC behaviours into quimb and TLC trace validation of random API walks"),
+    "C04": dict(
+        text="TLC explores the life-cycle of the left_inds isometry claim, gauge balance on bonds and scale bookkeeping exhaustively (ClaimSound, GaugeBalanced); seeded compositions of ~40 representation-changing rewrites (gauging, canonization, simplification passes, untruncated compression, fusing, squeezing, hyper-index resolution) on eight geometry classes of exact Gaussian-integer networks are judged by the TLC trace spec, which compares the network densified after every rewrite with LTensor!Denote of the original and checks the promised forms.",
+        note="trusted: TLC, LTensor.tla, numpy.einsum densification and numpy isometry measurements; hyper-index networks only for rewrites documenting support; scope <= 6 tensors, bond sizes <= 3",
+        technique="TLA+ claim/gauge bookkeeping model model-checked with TLC; TLC trace validation with an exact Denote oracle over recorded rewrite sequences"),
     "C16": dict(
         text="TLC explores every interleaving of the worker threads of a threaded kernel over the transcribed block arithmetic (every element written exactly once, nothing swallowed) and proves ExactCover of the transcription on a grid; the real partition functions on a large grid, every threaded kernel, par_reduce and parallel operator builders are judged against the serial answer by the TLC trace spec.",
         note="trusted: TLC, numpy serial references; real thread schedules are sampled by repetition, all schedules are explored in the model only",
